@@ -87,6 +87,10 @@ pub enum Op {
     Fence(Ordering),
     Crd(usize),
     Cwr(usize, i128),
+    CrdB(usize),
+    CrdE(usize),
+    CwrB(usize, i128),
+    CwrE(usize),
     Lock(usize),
     TryLock(usize),
     Unlock(usize),
@@ -272,6 +276,10 @@ fn parse_op(t: &[&str]) -> Option<Op> {
         ["fence", o] => Op::Fence(ord(o)?),
         ["crd", c] => Op::Crd(n(c)?),
         ["cwr", c, v] => Op::Cwr(n(c)?, i(v)?),
+        ["crdb", c] => Op::CrdB(n(c)?),
+        ["crde", c] => Op::CrdE(n(c)?),
+        ["cwrb", c, v] => Op::CwrB(n(c)?, i(v)?),
+        ["cwre", c] => Op::CwrE(n(c)?),
         ["lock", m] => Op::Lock(n(m)?),
         ["trylock", m] => Op::TryLock(n(m)?),
         ["unlock", m] => Op::Unlock(n(m)?),
